@@ -873,6 +873,9 @@ def loop_first_match(body, adt, field):
         t = body.blocks[L.driver]["term"]
         chains = [(f, ch) for (f, ch) in receiver_chains(body, t["args"][0]) if f[1] == field and (f[0] == adt or f[0].endswith("::" + adt))]
         if not chains:
+            # index form: `for idx in 0..list.len() { if list[idx].key == k { .. return / break } }` - an ascending range from 0
+            # to the list's length, the compared element read by `list[idx]` with idx the loop's own element
+            out += _index_first_match(body, L, adt, field)
             continue
         if any(T.classify(n) == "order-destroying" for _, ch in chains for n in ch):
             continue
@@ -892,6 +895,51 @@ def loop_first_match(body, adt, field):
                 back = path_between_avoiding(body, [eq_arm], [L.header], [])
                 if exits and back is None:
                     out.append((L, b, other))
+    return out
+
+
+def _index_first_match(body, L, adt, field):
+    dfr = op_fn(body.blocks[L.driver]["term"]["func"])
+    if dfr is None or "Range<" not in (fn_name(dfr) + " ".join(dfr.get("args") or [])) or "RangeInclusive" in fn_name(dfr):
+        return []
+    def on_field(op):
+        return any(f[1] == field and (f[0] == adt or f[0].endswith("::" + adt)) for f, ch in receiver_chains(body, op))
+    # the range is built as Range { start: 0, end: list.len() }
+    rng = None
+    for o in origins(body, body.blocks[L.driver]["term"]["args"][0]):
+        if o[0] == "agg" and len(o) == 3:
+            ag = body.blocks[o[1]]["stmts"][o[2]]["rv"]["agg"]
+            if ag.get("adt", "").endswith("ops::range::Range") or ag.get("adt", "").endswith("ops::Range"):
+                rng = ag
+    if rng is None or len(rng.get("ops", [])) != 2:
+        return []
+    fs = dict(zip(rng.get("fields", ["start", "end"]), rng["ops"]))
+    if const_val(fs.get("start")) != 0:
+        return []
+    eo = origins(body, fs.get("end"))
+    lens = [b for b, t, fr in body.iter_calls() if fr and tail(fn_name(fr), 1) == "len" and t["args"] and on_field(t["args"][0])]
+    if not eo or not all(o[0] == "call" and o[1] in lens for o in eo):
+        return []
+    idx_calls = [(b, t) for b, t, fr in body.iter_calls(L.blocks) if fr and tail(fn_name(fr), 1) in ("index", "index_mut") and t["args"] and on_field(t["args"][0])
+                 and any(o[0] == "call" and o[1] == L.driver for o in origins(body, t["args"][1]))]
+    if not idx_calls:
+        return []
+    out = []
+    for (b, ct, fr, is_eq) in comparison_calls(body):
+        if b not in L.blocks:
+            continue
+        o0, o1 = origins(body, ct["args"][0]), origins(body, ct["args"][1])
+        el0 = any(o[0] == "call" and o[1] in [x[0] for x in idx_calls] for o in o0)
+        el1 = any(o[0] == "call" and o[1] in [x[0] for x in idx_calls] for o in o1)
+        if el0 == el1:
+            continue
+        other = o1 if el0 else o0
+        for (sb, tt, ft) in bool_arms(body, b):
+            eq_arm = tt if is_eq else ft
+            exits = [(x, s) for (x, s) in L.exits if s == eq_arm or body.dominates(eq_arm, s) or body.dominates(eq_arm, x) or x == eq_arm]
+            back = path_between_avoiding(body, [eq_arm], [L.header], [])
+            if exits and back is None:
+                out.append((L, b, other))
     return out
 
 
